@@ -130,6 +130,27 @@ FMul(f, x, y) ==
 \* (Provided for completeness; used by trace specs that log the quotient.)
 FMAExact(f, x, y, z) == DAdd(DMul(Val(f, x), Val(f, y)), Val(f, z))
 
+\* correctly rounded quotient of finite x, y (y # 0): integer quotient with p+3 extra bits and
+\* a sticky bit; the sticky bit sits below at least two guard bits so RN of it is RN of x/y
+FDiv(f, x, y) ==
+  LET mx == Sig(f, x)  my == Sig(f, y)
+      k == f.p + 3 + NBitLen(my)
+      qr == NDivMod(NShl(mx, k), my)
+      m == NAdd(NShl(qr[1], 1), IF qr[2] = <<>> THEN <<>> ELSE NOne)
+      neg == (SignBit(f, x) + SignBit(f, y)) % 2
+  IN  RNs(f, DMk(ZMk(neg, m), Quantum(f, x) - Quantum(f, y) - k - 1), neg)
+\* correctly rounded square root of a finite x >= 0
+FSqrt(f, x) ==
+  IF IsZero(f, x) THEN x
+  ELSE LET m == Sig(f, x)
+           e == Quantum(f, x)
+           k0 == Max(0, 2 * f.p + 6 - NBitLen(m))
+           k == IF (e - k0) % 2 = 0 THEN k0 ELSE k0 + 1
+           a == NShl(m, k)
+           r == NSqrt(a)
+           mm == NAdd(NShl(r, 1), IF NMul(r, r) = a THEN <<>> ELSE NOne)
+       IN  RN(f, DMk(ZMk(0, mm), (e - k) \div 2 - 1))
+
 \* comparison of finite values
 FLt(f, x, y) == DLt(Val(f, x), Val(f, y))
 FLe(f, x, y) == DLe(Val(f, x), Val(f, y))
